@@ -145,6 +145,12 @@ pub struct GenParams {
     /// percentage of body lines long enough to wrap over several rows in side-by-side mode
     #[serde(default = "default_long_pct")]
     pub long_line_pct: u8,
+    /// how git writes the paths: 0 = as they are (`core.quotePath=false`), 1 = git's default: a path
+    /// with bytes above 0x7f, a quote or a backslash is written "a/na\303\257ve" with octal escapes,
+    /// a path with a blank gets a TAB after it in the ---/+++ lines; 2.. = `diff.mnemonicPrefix`
+    /// (i/ w/, c/ w/, c/ i/, o/ w/ instead of a/ b/)
+    #[serde(default)]
+    pub path_style: u8,
 }
 
 fn default_long_pct() -> u8 {
@@ -160,6 +166,11 @@ pub struct Gen<'a> {
     /// when set, every section is about this path (as in `git log -p -- path`, or the same file
     /// changed in consecutive commits)
     pub forced_name: Option<String>,
+    /// every path handed out by `fname` for the section being generated
+    names_used: Vec<String>,
+    /// percentage of paths that need careful parsing (blanks, non-ASCII, quotes, directories named
+    /// like git's one-letter prefixes); 10 unless the section is about the way paths are written
+    special_pct: u8,
 }
 
 const EXTS: &[&str] = &["rs", "py", "txt", "c", "js", "md", "toml", "sh", ""];
@@ -173,7 +184,7 @@ const MB_WORDS: &[&str] = &["héllo", "naïve", "日本", "语言", "λ", "→",
 
 impl<'a> Gen<'a> {
     pub fn new(rng: &'a mut Rng) -> Self {
-        Gen { rng, next_token: 0, lines: Vec::new(), special_names: true, long_line_pct: 8, forced_name: None }
+        Gen { rng, next_token: 0, lines: Vec::new(), special_names: true, long_line_pct: 8, forced_name: None, names_used: Vec::new(), special_pct: 10 }
     }
 
     fn token(&mut self) -> String {
@@ -223,13 +234,20 @@ impl<'a> Gen<'a> {
     }
 
     fn fname(&mut self, section: usize) -> String {
+        let n = self.fname_inner(section);
+        self.names_used.push(n.clone());
+        n
+    }
+
+    fn fname_inner(&mut self, section: usize) -> String {
         if section < 1000 {
             if let Some(n) = &self.forced_name {
                 return n.clone();
             }
         }
-        let dir = *self.rng.pick(&["", "src/", "a/b/", "lib/x/"]);
-        if self.special_names && self.rng.chance(1, 10) {
+        let dir = if self.special_pct > 10 { *self.rng.pick(&["", "src/", "a/b/", "lib/x/", "a/", "b/", "c/", "i/", "w/", "o/", "c/w/"]) } else { *self.rng.pick(&["", "src/", "a/b/", "lib/x/"]) };
+        let special = if self.special_pct > 10 { self.rng.chance(self.special_pct as u64, 100) } else { self.special_names && self.rng.chance(1, 10) };
+        if special {
             // names that need careful parsing of the header lines
             let n = *self.rng.pick(&["my file.txt", "dir with space/x y.rs", "naïve/файл.py", "a/b", "b/a.rs", "x -> y.txt", "weird\"quote.c"]);
             return format!("{}{}", dir, n);
@@ -419,7 +437,17 @@ impl<'a> Gen<'a> {
     pub fn section(&mut self, p: &GenParams, kind: SectionKind, section: usize) {
         self.long_line_pct = p.long_line_pct;
         let start = self.lines.len();
+        self.names_used.clear();
+        self.special_pct = if p.path_style != 0 { 50 } else { 10 };
         self.section_inner(p, kind, section);
+        if p.path_style != 0 && !p.no_prefix && p.flavor != Flavor::DiffU {
+            let names = std::mem::take(&mut self.names_used);
+            for l in self.lines[start..].iter_mut() {
+                if l.kind == LineKind::Meta {
+                    l.text = restyle_paths(&l.text, &names, p.path_style);
+                }
+            }
+        }
         if p.no_index_lines {
             let tail: Vec<GLine> = self.lines.split_off(start);
             self.lines.extend(tail.into_iter().filter(|l| !(l.kind == LineKind::Meta && l.text.starts_with("index "))));
@@ -657,6 +685,79 @@ impl<'a> Gen<'a> {
         self.push("    a commit message".into(), LineKind::Meta, None, usize::MAX, 0);
         self.push("".into(), LineKind::Meta, None, usize::MAX, 0);
     }
+}
+
+fn git_needs_quoting(name: &str) -> bool {
+    name.bytes().any(|b| b >= 0x80 || b == b'"' || b == b'\\' || b < 0x20)
+}
+
+/// git's C-style quoting of a path (`core.quotePath=true`, the default)
+fn git_cquote(path: &str) -> String {
+    let mut s = String::from("\"");
+    for b in path.bytes() {
+        match b {
+            b'"' => s.push_str("\\\""),
+            b'\\' => s.push_str("\\\\"),
+            b'\t' => s.push_str("\\t"),
+            b'\n' => s.push_str("\\n"),
+            0x20..=0x7e => s.push(b as char),
+            _ => s.push_str(&format!("\\{:03o}", b)),
+        }
+    }
+    s.push('"');
+    s
+}
+
+/// Rewrites the paths of one header line the way git writes them under `path_style` (see GenParams).
+/// `names`: the paths the section is about; a line that is not recognised stays as it is.
+fn restyle_paths(text: &str, names: &[String], style: u8) -> String {
+    let (pa, pb) = match style {
+        1 => ("a/", "b/"),
+        2 => ("i/", "w/"),
+        3 => ("c/", "w/"),
+        4 => ("c/", "i/"),
+        _ => ("o/", "w/"),
+    };
+    // a path behind a prefix, in a position where a TAB may follow it (---/+++ lines)
+    let styled = |prefix: &str, name: &str, tab: bool| -> String {
+        let full = format!("{}{}", prefix, name);
+        if style == 1 && git_needs_quoting(name) {
+            git_cquote(&full)
+        } else if style == 1 && tab && name.contains(' ') {
+            format!("{}\t", full)
+        } else {
+            full
+        }
+    };
+    let bare = |name: &str| -> String {
+        if style == 1 && git_needs_quoting(name) {
+            git_cquote(name)
+        } else {
+            name.to_string()
+        }
+    };
+    for x in names {
+        if text == format!("--- a/{}", x) {
+            return format!("--- {}", styled(pa, x, true));
+        }
+        if text == format!("+++ b/{}", x) {
+            return format!("+++ {}", styled(pb, x, true));
+        }
+        for kw in ["rename from ", "rename to ", "copy from ", "copy to ", "diff --cc "] {
+            if text == format!("{}{}", kw, x) {
+                return format!("{}{}", kw, bare(x));
+            }
+        }
+        for y in names {
+            if text == format!("diff --git a/{} b/{}", x, y) {
+                return format!("diff --git {} {}", styled(pa, x, false), styled(pb, y, false));
+            }
+            if text == format!("Binary files a/{} and b/{} differ", x, y) {
+                return format!("Binary files {} and {} differ", styled(pa, x, false), styled(pb, y, false));
+            }
+        }
+    }
+    text.to_string()
 }
 
 pub fn generate(rng: &mut Rng, p: &GenParams) -> Vec<GLine> {
@@ -959,6 +1060,7 @@ pub fn random_params(rng: &mut Rng, pivot: usize) -> GenParams {
         no_prefix: rng.chance(1, 10),
         line_number_class: 0,
         long_line_pct: *rng.pick(&[0u8, 8, 8, 8, 50, 100]),
+        path_style: 0,
     }
 }
 
